@@ -43,4 +43,8 @@ def check(run):
         "(verdicts over-capacity, under-capacity, id-out-of-bounds, duplicate-id, recycling, send-blocked). "
         "non-trivial = a history in which at least one request was accepted and at least one other kind of outcome occurred; distinct = distinct "
         "(N, maxPending, mode, operation list)")
+    run.coverage["rule"] += (
+        " Response frames of the histories take every shape the codec supports (DSE v1 / v2 pages with and without paging state, new result "
+        "metadata id, column specifications, page numbers 1..1000; Void, READY, plain Rows, ERROR as final frames) and are encoded and decoded by "
+        "the real frame codec before delivery; isLastFrame's answer is compared with LastContinuousPage as sent (verdict last-frame-misjudged).")
     il.verdict(run, "C09", broken, findings)
